@@ -471,3 +471,26 @@ Fixpoint model_obs (st : dstate) (its : list iter) : list observed :=
   | [] => []
   | it :: t => let '(st', os, e, _) := iterate st it in mkObs os e (due_work st') :: model_obs st' t
   end.
+
+(* ---- what an observer of the wire sees of probing (statement vocabulary of C07's history theorem) ------ *)
+
+(* question names of the probe queries sent on interface k in one iteration *)
+Definition probe_names_on (os : list out) (k : N) : list bytes :=
+  flat_map (fun o => match o with
+                     | OSend i _ _ m => if (i =? k) && negb (o_resp m) then map fst (o_q m) else []
+                     | _ => [] end) os.
+
+(* times of the iterations that sent a probe query for name n on interface k *)
+Fixpoint wire_probe_times (k : N) (n : bytes) (st : dstate) (its : list iter) : list N :=
+  match its with
+  | [] => []
+  | it :: t =>
+    let '(st', os, _, _) := iterate st it in
+    (if mem n (probe_names_on os k) then [it_now it] else []) ++ wire_probe_times k n st' t
+  end.
+
+Fixpoint iter_times_from (t : N) (its : list iter) : Prop :=
+  match its with
+  | [] => True
+  | it :: r => t <= it_now it /\ iter_times_from (it_now it) r
+  end.
